@@ -17,6 +17,8 @@ def run(tier, seed, flavour="plain"):
     conv = {k[16:]: v for k, v in m["counters"].items() if k.startswith("c16_conversions_")}
     if len(conv) != 6 or min(conv.values()) < 96:
         V.inconclusive.append("expected 6 ordered numeric-type pairs x 96 types, saw %s" % conv)
+    if m["counters"].get("c16_assignments_onto_equal_comparing_target", 0) == 0:
+        V.inconclusive.append("no assignment onto an equal-comparing target (signed zeros) was observed")
     V.coverage = {
         "evaluations": m["evaluations"], "distinct_nontrivial": m["distinct_nontrivial"],
         "rule": "92 quantity types + 4 vector/tensor types x 6 ordered pairs of numeric types x converting constructor and "
@@ -24,6 +26,7 @@ def run(tier, seed, flavour="plain"):
                 "values that overflow to infinity or become subnormal in the narrower type, signed zeros; widening then narrowing must be "
                 "the identity. distinct = (type, numeric-type pair)",
         "samples": m["samples"], "types_by_conversion": conv,
+        "assignments_onto_a_target_that_compares_equal_but_holds_the_other_zero": m["counters"].get("c16_assignments_onto_equal_comparing_target", 0),
         "no_converting_constructor": m["lists"].get("c16_no_converting_constructor", []),
         "no_converting_assignment": m["lists"].get("c16_no_converting_assignment", []),
         "direction_unit_length_deviation_eps": m["maxima"],
